@@ -1,5 +1,6 @@
 import UtlsVerif.ConvertLemmas
 import UtlsVerif.CHBig
+import UtlsVerif.CHEditLemmas
 import UtlsVerif.Dict
 import UtlsVerif.Gen.FieldMaps
 /-!
@@ -32,6 +33,9 @@ ClientHello codec (`handshake_messages.go`), over the transcription `CH`:
   re-marshalling fails, because the parsed message carries `secureRenegotiationSupported` and
   `marshalMsg` then adds a renegotiation_info extension (open finding `scsv-reneg-overflow`, replayed on the
   real code by corpus/C31/scsv-overflow.case).
+* `marshal_reads_public_fields`, `marshal_depends_on_public_fields_only` — what `Marshal` writes is the view's
+  *current* public fields: after any well-formed edit of one field of a parsed view the re-parse shows
+  exactly the edited view, and views with equal public fields marshal identically (no hidden state).
 * `ch_remarshal_fails_only_by_size` — the guard is exactly "a length prefix overflows": the
   re-marshalling of a message (with `original` cleared) fails iff `CH.fits` is false.
 -/
@@ -91,15 +95,38 @@ theorem ch_remarshal_fails_only_by_size (m : CH.Msg) :
     have := CH.bodyOf_length_lt (CH.fits_spec hf)
     simp [this]
 
-/-! ### non-vacuity -/
--- `ch_reparse_stable_partial` applies to a real hello: a TLS 1.2 hello with SNI, ALPN, an unknown
--- extension (GREASE 0x0a0a) and SCSV; the re-marshalled bytes differ from the input (the unknown
--- extension is gone, renegotiation_info appears) and still parse to the same public fields
 private def demoRaw : Wire.Bytes :=
   Wire.u8 1 ++ Wire.vec24 (Wire.u16 0x0303 ++ List.replicate 32 7 ++ Wire.vec8 [] ++
     Wire.vec16 (Wire.encU16s [0x1301, 0x00ff]) ++ Wire.vec8 [0] ++
     Wire.vec16 (CH.frameExts [(0x0a0a, [0]), (CH.xSNI, Wire.vec16 (Wire.u8 0 ++ Wire.vec16 [97, 46, 98])),
       (CH.xALPN, Wire.vec16 (Wire.vec8 [104, 50]))]))
+
+/-- **`Marshal` writes the view's current public fields** (added after seeded change C31-3).
+For every accepted ClientHello and every well-formed assignment to one public field of its view
+(`CH.Edit`: ServerName, CipherSuites, SessionId, AlpnProtocols, KeyShares, Vers, SupportedVersions, Cookie —
+arbitrary values), if `Marshal` of the edited view (Raw cleared) succeeds, its bytes are accepted and parse
+to exactly the edited view: the assigned field shows the new value and every other public field is kept.
+Nothing converted or marshalled earlier matters. -/
+theorem marshal_reads_public_fields (raw : Wire.Bytes) (m : CH.Msg) (h : CH.unmarshal raw = some m)
+    (e : CH.Edit) (hok : e.ok m = true) (raw' : Wire.Bytes) (h' : CH.marshal none (e.apply m) = some raw') :
+    ∃ m', CH.unmarshal raw' = some m' ∧ CH.pubView m' = CH.pubView (e.apply m) :=
+  CH.reparse (e.apply m) (CH.Edit.inv (CH.unmarshal_inv h) e hok) raw' h'
+
+/-- … and it is a function of those fields alone: two views with the same public fields marshal to the
+same bytes, whatever their history (the model has no cached conversion). -/
+theorem marshal_depends_on_public_fields_only (a b : CH.Msg) (h : CH.pubView a = CH.pubView b) :
+    CH.marshal none a = CH.marshal none b :=
+  CH.marshal_of_pubView_eq h
+
+/-! ### non-vacuity -/
+-- an edit of the demo hello below: the re-parse of the marshalled edited view shows the new server name
+example : ((CH.unmarshal demoRaw).bind fun m =>
+      (CH.marshal none ((CH.Edit.serverName [120, 46, 121]).apply m)).bind CH.unmarshal).map (·.serverName) =
+    some [120, 46, 121] := by decide
+
+-- `ch_reparse_stable_partial` applies to a real hello: a TLS 1.2 hello with SNI, ALPN, an unknown
+-- extension (GREASE 0x0a0a) and SCSV; the re-marshalled bytes differ from the input (the unknown
+-- extension is gone, renegotiation_info appears) and still parse to the same public fields
 example : (CH.unmarshal demoRaw).isSome = true := by decide
 example : ((CH.unmarshal demoRaw).bind (CH.marshal none)).isSome = true := by decide
 example : ((CH.unmarshal demoRaw).bind (CH.marshal none)) ≠ some demoRaw := by decide
